@@ -189,9 +189,9 @@ class SSH_Socket(ReadBuf, WriteBuf):
         e = None
         while s >= 0:
             s, e = self.recv()
-            if s < 0:
-                continue
-            while self.unread_len > 0:
+
+            # A line can arrive split across several reads: take complete lines only, and whatever is left over once the peer has stopped sending.
+            while self.unread_len > 0 and (s < 0 or self.__has_line()):
                 line = self.read_line()
                 if len(line.strip()) == 0:
                     continue
@@ -201,6 +201,13 @@ class SSH_Socket(ReadBuf, WriteBuf):
                 self.__header.append(line)
 
         return self.__banner, self.__header, e
+
+    def __has_line(self) -> bool:
+        '''Returns True if the unread data holds a complete line.'''
+        pos = self._buf.tell()
+        ret = b'\n' in self._buf.read()
+        self._buf.seek(pos, 0)
+        return ret
 
     def recv(self, size: int = 2048) -> Tuple[int, Optional[str]]:
         if self.__sock is None:
